@@ -11,6 +11,7 @@ mod m8;
 mod m9;
 mod m10;
 mod cli;
+mod corner;
 mod m5p;
 mod util;
 use util::*;
@@ -61,6 +62,10 @@ fn main() {
         ("c17", None) => m9::run_c17(&args),
         ("c17", Some(p)) => m5::replay(&args, "C17", p),
         ("c18", None) => m10::run_c18(&args),
+        ("big", None) => m10::run_big(&args),
+        ("corner", None) => m5::run_corner_job(&args),
+        ("corner", Some(p)) => m5::replay(&args, &args.property.clone(), p),
+        ("big", Some(p)) => m5::replay(&args, &args.property.clone(), p),
         ("c18", Some(p)) => m5::replay(&args, "C18", p),
         ("cli09", None) => cli::run_cli_flags(&args, "C09"),
         ("cli10", None) => cli::run_cli_flags(&args, "C10"),
